@@ -1058,9 +1058,16 @@ class ModelBuilder:
         # Apply global attributes
         self._apply_global_attributes(project, data.get("global_attributes", []))
 
-        # Apply property declarations (resources, tasks, accounts)
-        for prop in data.get("property_declarations", []):
-            self._create_property(project, prop)
+        # Apply property declarations (resources, tasks, accounts).  Shifts come
+        # first: a resource may name a shift that is declared further down the
+        # file, and the reference is looked up while the resource is created.
+        declarations = data.get("property_declarations", [])
+        for prop in declarations:
+            if isinstance(prop, dict) and prop.get("type") == "shift":
+                self._create_property(project, prop)
+        for prop in declarations:
+            if not (isinstance(prop, dict) and prop.get("type") == "shift"):
+                self._create_property(project, prop)
 
         # Resolve dependencies after all tasks are created
         self._resolve_dependencies(project)
